@@ -5,17 +5,65 @@ x Close once / twice, and Close injected at every step; spec/rpc/RpcEndState.tla
 validates the event log (every local call resolves, Close returns - also the
 second time -, Done closes, nothing is sent after the transport closed, the
 connection mutex and sender lock are free afterwards)."""
+import json
+import os
+
 from props import c08
+from vlib import tlc, gobuild
+from vlib.core import Inconclusive
 
 LEVEL = "fault_enumeration"
 
 
+def torn_writes(ctx):
+    """Torn-write clause on the byte-stream transport (spec/rpc/StreamTornGen.tla -> harness/streamdrv -> StreamTornTrace.tla)."""
+    sd = tlc.stage(ctx, "rpc")
+    g = tlc.run(ctx, sd, "StreamTornGen", cfg="StreamTornGen.cfg", workers=2, timeout=600)
+    scripts = g.tagged("SCRIPT")
+    if not scripts:
+        raise Inconclusive("StreamTornGen produced no scripts")
+    scripts.sort(key=lambda s: json.dumps(s, sort_keys=True))
+    sf = ctx.path("tornscripts.ndjson")
+    with open(sf, "w") as f:
+        for s in scripts:
+            f.write(json.dumps(s) + "\n")
+    drv = gobuild.build(ctx, "streamdrv")
+    tf = os.path.join(sd, "torntrace.ndjson")
+    rc, out, err = gobuild.run_driver(ctx, drv, [sf, tf], timeout=1500)
+    if rc != 0:
+        raise Inconclusive("streamdrv died rc=%d: %s" % (rc, err[-2000:]))
+    summ = [json.loads(ln) for ln in out.splitlines() if ln.startswith("{")][-1]
+    rt = tlc.run(ctx, sd, "StreamTornTrace", cfg="StreamTornTrace.cfg", workers=1, timeout=1500, stack=True)
+    cons = rt.tagged("CONSUMED")
+    if not cons or cons[0]["n"] != summ["lines"]:
+        raise Inconclusive("StreamTornTrace consumed %s of %d lines" % (cons, summ["lines"]))
+    bad = rt.tagged("TORNBAD")
+    if bad:
+        with open(tf) as f:
+            lines = [json.loads(x) for x in f]
+        for b in bad:
+            i = b["line"] - 1
+            j = i
+            while j > 0 and lines[j]["ev"] != "reset":
+                j -= 1
+            n = sum(1 for x in lines[:j + 1] if x["ev"] == "reset") - 1
+            sc = scripts[n] if n < len(scripts) else {}
+            ctx.violation("torn:%s:%s:%s" % (b["what"][:40], sc.get("level"), sc.get("enc")),
+                          "%s: script %s, event #%d %s" % (b["what"], json.dumps(sc), i - j, json.dumps(lines[i])),
+                          {"script": sc, "trace": lines[j:i + 1]})
+    ctx.cover(torn_write_scripts=len(scripts), torn_write_events=summ["lines"])
+    return len(scripts), summ["lines"], g.distinct + rt.distinct
+
+
 def run(ctx):
+    nt, ne, st = torn_writes(ctx)
     scripts, found, summ, rej, states = c08.pipeline(ctx, "RpcFault")
+    states += st
     c08.report(ctx, scripts, found, summ, rej, states,
                "scripts = 4 base scenarios (incoming calls with capabilities, pipelined call on an unreturned answer, local Bootstrap + calls "
                "on the import + release, mixed) x {NewMessage error, send error, receive error} x operation index 1..7 x Close once / twice, "
-               "plus Close injected at every step of every base scenario")
+               "plus Close injected at every step of every base scenario; torn writes: {basic, packed} stream transport x {4 messages sent directly, 3 Bootstraps under a Conn} "
+               "x fault at write call 0..7 accepting 0, 1, 3, 7 or all-but-one bytes")
 
 
 replay = c08.replay
